@@ -297,6 +297,10 @@ def main():
         if hasattr(corr, "shrink"):
             case = shrink(corr, case, key)
         real = corr.run_real(case)
+        try:
+            msg = next((m for k2, m in (corr.oracle(case, real) or []) if k2 == key), msg)   # message of the shrunk case
+        except Exception:
+            pass
         payload = {"property": prop, "kind": "failing-input", "key": key, "message": msg, "case": case,
                    "line": corr.to_line(case), "real": real,
                    "model": (run_driver(prop, [corr.to_line(case)]) or [None])[0] if lean["driver_built"] and corr.to_line(case) else None,
@@ -347,7 +351,9 @@ def main():
         for f in (corr.features(c, reals[i]) if hasattr(corr, "features") else []):
             hist[f] = hist.get(f, 0) + 1
     k = max(1, len(cases) // 6)
-    samples = [{"line": lines[i], "real": reals[i][:400] if isinstance(reals[i], str) else reals[i],
+    def _clip(x, n=2000):
+        return x if not isinstance(x, str) or len(x) <= n else x[:n] + "...[%d chars]" % len(x)
+    samples = [{"line": _clip(lines[i]), "real": reals[i][:400] if isinstance(reals[i], str) else reals[i],
                 "model": None if models is None else (models[i][:400] if isinstance(models[i], str) else models[i])}
                for i in range(0, len(cases), k)][:8]
     ev = {
